@@ -66,6 +66,23 @@ class SymSeq:
     def _next(self, default, missing):
         """next() on a lazy generator: its first element (least witness)."""
         c = core.ctx()
+        sel = getattr(self, 'selection', None)
+        if sel is not None and not isinstance(self.length, int):
+            # instantiate "a witness of an enclosing exists makes the selection non-empty" before deciding emptiness (sound: only
+            # instances of the selection / quantifier axioms are added)
+            terms = []
+            for quant, o in list(getattr(c, 'quantifiers', [])):
+                if quant.which == 'any' and len(o) == 0:          # witnesses of a global exists
+                    terms.extend(mk_int(f()) for f in quant.wit)
+            terms = terms[-6:]
+            n_before = len(getattr(c, 'quantifiers', []))
+            for w in terms:
+                for cand in (w, mk_int(zint(sel.total) - 1 - zint(w))):
+                    sel.nonempty_iff(cand)
+            import itertools as _it
+            for quant, o in list(getattr(c, 'quantifiers', []))[n_before:]:
+                for r in _it.product(terms, repeat=len(quant.axes)):
+                    quant.instantiate(o, r)
         if c.branch(zint(self.length) > 0):
             return self.at(0)
         if default is not missing:
